@@ -124,6 +124,15 @@ def run(ctx):
         sysm = sysm[::2]
         shared = shared[ctx.rng.randrange(3)::3]
     ob = lambda req: {"type": "object", "properties": {"p": {"type": "string"}, "q": {"type": "string"}}, "required": req}      # noqa: E731
+    # colliding types that differ only in an annotation-like keyword (default exempts a required key; title / description change nothing)
+    def conn(dflt=None, **ann):
+        port = {"type": "integer"}
+        if dflt is not None:
+            port["default"] = dflt
+        return dict({"type": "object", "properties": {"host": {"type": "string"}, "port": port}, "required": ["host", "port"]}, **ann)
+    ann = [collide_root(conn(5432), conn(), required=True), collide_root(conn(), conn(5432)), collide_root(conn(title="A"), conn(title="B", description="other")),
+           collide_root(conn(80), conn(443), key="w")]
+    sysm = sysm + ann
     sysm = sysm + shared + [collide_root(ob(["p"]), ob(["q"]), required=True), collide_root(ob(["p", "q"]), ob(["p"])), collide_root(ob(["q"]), ob(["p", "q"]), key="w")]
     n = 30 if ctx.tier == "quick" else 400
     cases = build_cases(ctx, len(sysm) + n, ["object", "ref", "array"], CLASSES, "c04x", extra_schemas=sysm, docs_per=2 if ctx.tier == "quick" else 4)
